@@ -42,6 +42,9 @@ def eam_model(rng, fs=False, target=None):
     if fs: dens = [('%s->%s' % (a, b), '>=0 as.polynomial %r %r' % (round(rng.uniform(0.1, 3), 2), round(rng.uniform(-1, 1), 2))) for a in sp_ for b in sp_]
     else: dens = [('%s' % s, '>=0 as.polynomial %r %r' % (round(rng.uniform(0.1, 3), 2), round(rng.uniform(-1, 1), 2))) for s in sp_]
     pairs = [('%s-%s' % (a, b), '>=0 as.polynomial %r' % round(rng.uniform(-3, 3), 2)) for i, a in enumerate(sp_) for b in sp_[i:]]
+    if len(sp_) > 1 and rng.random() < 0.4:
+        # a species that has embedding/density entries but takes part in no declared pair interaction
+        lonely = sp_[-1]; pairs = [p for p in pairs if lonely not in p[0].split('-')]
     return sp_, head, embed, dens, pairs
 
 def render(head, sections):
